@@ -6,6 +6,7 @@ import Driver.Caches
 import Driver.Validators
 import Driver.Aead
 import Driver.Config
+import Driver.Proxyflow
 open Lean Sso.Drv
 
 /-! `ssoverif <trace.jsonl>`: one verdict line per case, then a summary line. -/
@@ -19,6 +20,7 @@ def dispatch (e : String) (j : Json) : Except String Verdict :=
   | "validators" => Sso.Drv.Validators.checkCase j
   | "aead" => Sso.Drv.Aead.checkCase j
   | "config" => Sso.Drv.Config.checkCase j
+  | "proxyflow" => Sso.Drv.Proxyflow.checkCase j
   | _ => throw s!"unknown engine {e}"
 
 partial def loop (h : IO.FS.Stream) (out : IO.FS.Stream) (n bad : Nat) : IO (Nat × Nat) := do
